@@ -132,6 +132,31 @@ def run(ctx):
                p.need_body(path).loc(), "status register before -> after: %s" % badbits,
                "constant propagation through the reset on four bit patterns")
 
+    # a field that is classed "unspecified" because it is the constant None must really be that constant: nothing but the
+    # constructor and the interrupt-fetch stage writes it, and that stage keeps None (otherwise the latch would have to be
+    # cleared by the resets, which it is not)
+    from .. import mirutil as _mu
+    for fld, why in sorted(rm_classes.items()):
+        if not (isinstance(why, str) and why.startswith("unspecified") and "constant None" in why):
+            continue
+        FI = "L::machine::raw::MachineAfterInstructionUpdate::<'a>::fetch_interrupts"
+        writers = {w["body"] for w in _mu.field_writers(p, RM, fld)}
+        allowed = {RM + "::new", FI, "<%s as core::clone::Clone>::clone" % RM}
+        Ic = absint.Interp(p)
+        stc = absint.State()
+        ovc = step.machine_overrides(p, None, ["Running", "Stopped", "ErrorStopped"], None, stacksize_notset=True)
+        ovc[fld] = En({0: ()})
+        mac = step.new_machine(p, Ic, stc, ovc)
+        Ic.events.clear()
+        rr = Ic.run_body(p.need_body(FI), [Agg((Ref(mac, (), True),))], stc, 0)
+        after = step.field(p, Ic, stc, mac, fld)
+        badc = [e for e in Ic.events if e.kind in step.BAD_EVENTS and not e.in_log]
+        chk.ob("constant-none/%s" % fld, writers <= allowed and after == En({0: ()}) and not badc and rr is not BOT,
+               "the latch is the constant None (nothing can set it), which is why no reset needs to clear it", p.need_body(FI).loc(),
+               "writers: %s; value after the interrupt-fetch stage when it was None: %r %s"
+               % (sorted(w.rsplit("::", 1)[-1] for w in writers), after, badc[:1]),
+               "field-writer index + A4 of the interrupt-fetch stage on an unknown machine")
+
     # load: master reset + RAM + limits
     prog = shapes.build(p, "L::compiler::ByteCode")
     never_but_load = {"bus.ram.0", "stacksize", "programsize"}
